@@ -23,9 +23,10 @@ ID = "C27"
 LEVEL = "model_checking"
 META = dict(
     technique="deviation-bounded exhaustive schedule/fault exploration of the real EngineRunner on a virtual asyncio loop",
-    text="Every scenario (engine events placed at each recovery state, link loss with 0/1/2/4 sends in flight, short and >5 s outages, "
-         "back-off 0.5/9.9) is executed with every vector of up to 2 (quick) / 3 (thorough, small scenarios) deviations - timer before "
-         "ack, event now, link down/up now, ack lost, planned step postponed - on the real runner, emitter hand-off and sequence "
+    text="Every scenario (quick 14, thorough 132: engine events run start / tag update / run stop placed at each recovery state Failed, "
+         "Disconnected, Reconnecting, CatchingUp, Reconnected; link loss with 0/1/2/3 sends in flight; 1 s and 6 s outages; back-off 0.5/9.9) "
+         "is executed with every vector of up to 2 deviations (thorough: 3 for three base scenarios) - timer before ack, event now, event "
+         "together with the default step, link down/up now (second outage), ack lost, planned step postponed - on the real runner, emitter hand-off and sequence "
          "numbering; the complete observation (posts, buffering, sends, acks, state changes) is compared with a reference reading of "
          "the statement. Model checking fits because the runner's behaviour depends only on the interleaving of its tasks with link "
          "and engine events, which the virtual loop makes enumerable and repeatable.",
